@@ -236,3 +236,54 @@ def gen_c15_shadow(seed, ptr):
     files[owner + ".pyxis"] = text
     exp["modules"] = {first: dict(doc=[], pro=None, epi=None), owner: dict(doc=[], pro=None, epi=None)}
     return files, exp
+
+
+def gen_c07_namesakes(seed, ptr):
+    """base types that share their simple name but live in different modules, reached through intermediate bases:
+    each is a different type, so a conversion to each exists unless that very type is reached twice.
+    Returns (files, exp) in the shape gen.generate uses (the keys mon_c07 reads)."""
+    rng = random.Random(seed)
+    base = rng.choice(["Base", "Object", "Node"])
+    m1, m2 = rng.choice([("a", "b"), ("gfx", "audio"), ("core", "game::core")])
+    p1, p2 = m1.split("::"), m2.split("::")
+    same = rng.random() < 0.25          # both intermediates derive from the SAME type: then no conversion to it
+    files = {}
+    exp = dict(types={}, enums={}, vftables={}, funcs={}, externs={}, miss=None)
+
+    def add(path, fields, base_fields, size):
+        exp["types"]["::".join(path)] = dict(
+            fields=fields, size=size, align=4, packed=False, own_vftable=False, has_vftable=False, slots=[], slot_descs=[],
+            declared_vft=False, copyable=False, cloneable=False, defaultable=False, singleton=None, pub=True, doc=[],
+            impls=[], bases=[b for _, b in base_fields], base_fields=base_fields, field_meta={})
+
+    k1, k2 = 4 * rng.randint(1, 3), 4 * rng.randint(4, 6)
+    t1 = "pub type %s { pub v: [u8; %d] }\n" % (base, k1)
+    add(p1 + [base], [("v", 0, k1, "[u8; %d]" % k1, False, False)], [], k1)
+    bf1, bf2 = rng.choice(["base", "inner", "b"]), rng.choice(["base", "inner", "b"])
+    t1 += "pub type MidA { #[base] pub %s: %s, pub x: u32 }\n" % (bf1, base)
+    add(p1 + ["MidA"], [], [(bf1, "::".join(p1 + [base]))], k1 + 4)
+    if same:
+        t2 = "use %s::%s;\n" % ("::".join(p1), base)
+        target2 = p1 + [base]
+        s2 = k1
+    else:
+        t2 = "pub type %s { pub w: [u8; %d] }\n" % (base, k2)
+        add(p2 + [base], [("w", 0, k2, "[u8; %d]" % k2, False, False)], [], k2)
+        target2 = p2 + [base]
+        s2 = k2
+    t2 += "pub type MidB { #[base] pub %s: %s, pub y: u32 }\n" % (bf2, base)
+    add(p2 + ["MidB"], [], [(bf2, "::".join(target2))], s2 + 4)
+    files["/".join(p1) + ".pyxis"] = t1
+    files["/".join(p2) + ".pyxis"] = t2
+    if len(p2) > 1 and "/".join(p2[:-1]) + ".pyxis" not in files:
+        files["/".join(p2[:-1]) + ".pyxis"] = "\n"
+    d = rng.choice(["d", "scene"])
+    fa, fb = "ma", "mb"
+    order = [(fa, p1 + ["MidA"]), (fb, p2 + ["MidB"])]
+    if rng.random() < 0.5:
+        order.reverse()
+    td = "use %s::MidA;\nuse %s::MidB;\npub type Derived {\n%s\n}\n" % (
+        "::".join(p1), "::".join(p2), ",\n".join("    #[base] pub %s: %s" % (f, p[-1]) for f, p in order))
+    add([d, "Derived"], [], [(f, "::".join(p)) for f, p in order], k1 + 4 + s2 + 4)
+    files[d + ".pyxis"] = td
+    return files, exp
